@@ -5,6 +5,8 @@ package main
 // the comparator and the file join.
 
 import (
+	"os"
+	"regexp"
 	"fmt"
 	"go/ast"
 	"go/types"
@@ -97,6 +99,8 @@ func ruleTabPriority(c *Ctx, r *R) {
 		r.undecided("compile", "-", err.Error())
 		return
 	}
+	// sub-ranks a rank function adds inside one kind: kind -> increment
+	refined := map[string]int64{}
 	// the sort call and its comparator
 	in := newInterp(c)
 	var sortCalls []string
@@ -141,6 +145,46 @@ func ruleTabPriority(c *Ctx, r *R) {
 				case ret.Name == ">" && ai.Eq(elem("I")) && bi.Eq(elem("J")):
 					good = true
 				case ret.Name == "<" && ai.Eq(elem("J")) && bi.Eq(elem("I")):
+					good = true
+				}
+			}
+		}
+		// a rank function of the element instead of the bare table lookup: rank(x[i]) > rank(x[j])
+		if !good && ret.Op == "bin" && ret.Name == ">" && len(ret.Args) == 2 && ret.Args[0].Op == "call" && ret.Args[1].Op == "call" && ret.Args[0].Name == ret.Args[1].Name && strings.HasPrefix(ret.Args[0].Name, "var.") &&
+			len(ret.Args[0].Args) == 1 && len(ret.Args[1].Args) == 1 &&
+			ret.Args[0].Args[0].Eq(tIndex(args[0], tVar(nil, "I"))) && ret.Args[1].Args[0].Eq(tIndex(args[0], tVar(nil, "J"))) {
+			if rfl := c.localFuncLit(fd, strings.TrimPrefix(ret.Args[0].Name, "var.")); rfl != nil && len(rfl.Type.Params.List) == 1 && len(rfl.Type.Params.List[0].Names) == 1 {
+				rin := newInterp(c)
+				rin.NoLin = false
+				rps := rin.ExecLit(rfl, st.Clone(), map[string]*T{rfl.Type.Params.List[0].Names[0].Name: tVar(nil, "E")})
+				okAll := len(rps) > 0
+				for _, rp := range rps {
+					if os.Getenv("GC_DEBUG") != "" {
+						fmt.Println("RANKPATH", condStrings(rp), "=>", retStrings(rp))
+					}
+					if len(rp.Ret) != 1 {
+						okAll = false
+						continue
+					}
+					rs := rp.Ret[0].String()
+					base := false
+					if rp.Ret[0].Op == "index" && strings.HasSuffix(rp.Ret[0].Args[1].String(), "E.Symbol") {
+						base = true
+					}
+					if base {
+						continue
+					}
+					// priority["kind"] + k under E.Symbol == "kind"
+					m := regexp.MustCompile(`\["(\w+)"\] \+(\d+)>$`).FindStringSubmatch(rs)
+					if m == nil || !strings.Contains(condStrings(rp), `(E.Symbol == "`+m[1]+`")`) {
+						okAll = false
+						continue
+					}
+					var k int64
+					fmt.Sscan(m[2], &k)
+					refined[m[1]] = k
+				}
+				if okAll {
 					good = true
 				}
 			}
@@ -191,6 +235,40 @@ func ruleTabPriority(c *Ctx, r *R) {
 	for _, k := range []string{"const", "method", "function"} {
 		rel("type", k, true)
 		rel("import", k, true)
+	}
+	// "type" declarations depend on each other at compile time: `type MyInt int` is resolved
+	// (Globals.Write of a type value) while compiling, and a struct declaration reads the
+	// types of its fields (typeFromToken) while compiling.  With one priority for every
+	// type declaration the stable sort keeps source/file order, so a struct declared before
+	// the named type of one of its fields sees an unknown name.  The sort must rank the
+	// alias-like declarations above the struct declarations.
+	if tsc := cs.ByLabel["type"]; tsc != nil {
+		writes, reads := false, false
+		ast.Inspect(tsc.Clause, func(n ast.Node) bool {
+			if call, ok := n.(*ast.CallExpr); ok {
+				switch c.CalleeName(call) {
+				case "lookup.Write":
+					writes = true
+				case "typeFromToken":
+					reads = true
+				}
+			}
+			return true
+		})
+		if writes && reads {
+			r.check(refined["type"] > 0, "order type>struct", c.Pos(cl), "non-struct type declarations are ranked above struct declarations",
+				"all `type` declarations have one priority, but compile(\"type\") both defines named non-struct types at compile time and reads field types at compile time: `type S struct{ f MyInt }` placed before (or in a file sorted before) `type MyInt int` gives S{}.f == nil instead of 0, so declaration order and file layout change behaviour")
+		}
+	}
+	for k, inc := range refined {
+		next := int64(1 << 40)
+		for _, p := range prio {
+			if p > prio[k] && p < next {
+				next = p
+			}
+		}
+		r.check(inc > 0 && prio[k]+inc < next, "sub-rank "+k, c.Pos(cl), fmt.Sprintf("%d < %d+%d < %d", prio[k], prio[k], inc, next),
+			fmt.Sprintf("the rank function lifts some %q declarations by %d, which reaches the priority of the next kind (%d): they would be hoisted above declarations they depend on", k, inc, next))
 	}
 	r.check(prio["init"] < 0, "order 0>init", c.Pos(cl), "init after statements", "init must run after all top-level statements (negative priority)")
 }
@@ -320,4 +398,24 @@ func ruleJoinImports(c *Ctx, r *R) {
 	if n == 0 {
 		r.undecided("alias read", "-", "no reader of the import alias table found")
 	}
+}
+
+// localFuncLit: the function literal assigned (once) to a local variable of fd.
+func (c *Ctx) localFuncLit(fd *ast.FuncDecl, name string) *ast.FuncLit {
+	var out *ast.FuncLit
+	ast.Inspect(fd.Body, func(n ast.Node) bool {
+		as, ok := n.(*ast.AssignStmt)
+		if !ok || len(as.Lhs) != len(as.Rhs) {
+			return true
+		}
+		for i, l := range as.Lhs {
+			if id, ok := l.(*ast.Ident); ok && id.Name == name {
+				if fl, ok := unparen(as.Rhs[i]).(*ast.FuncLit); ok {
+					out = fl
+				}
+			}
+		}
+		return true
+	})
+	return out
 }
